@@ -79,6 +79,9 @@ pub struct NodeStore {
     /// Remaining number of set_state calls to fail with an I/O error ("disk full").
     pub fail_set_state: u32,
     pub fail_get_block: u32,
+    /// Remaining number of `get_block` calls answered with a block whose payload was altered
+    /// (Byzantine storage / peer): number and certificate intact, payload not.
+    pub tamper_get_block: u32,
     /// Number of read errors ever armed (readers relax their oracle once one was injected).
     pub read_faults_fired: u32,
     /// Payload verification verdict override: reject everything while > 0.
@@ -100,6 +103,7 @@ impl NodeStore {
             fault_at: None,
             fail_set_state: 0,
             fail_get_block: 0,
+            tamper_get_block: 0,
             read_faults_fired: 0,
             reject_payloads: 0,
             persisted: None,
@@ -264,8 +268,18 @@ impl EngineInterface for SimEngine {
             self.hub.fault("disk_error");
             return Err(anyhow::anyhow!("simulated read error").into());
         }
-        match s.disk.block(number) {
-            Some(b) => Ok(b.clone()),
+        let tamper = s.tamper_get_block > 0;
+        match s.disk.block(number).cloned() {
+            Some(mut b) if tamper => {
+                s.tamper_get_block -= 1;
+                self.hub.fault("tampered_block_served");
+                match &mut b {
+                    validator::Block::FinalV2(f) => f.payload.0.push(0x66),
+                    validator::Block::PreGenesis(p) => p.payload.0.push(0x66),
+                }
+                Ok(b)
+            }
+            Some(b) => Ok(b),
             None => Err(anyhow::anyhow!("block {number} not found").into()),
         }
     }
